@@ -21,15 +21,15 @@ Record state_matches (st : estate) (ip : iparams) (fek : bytes) : Prop := {
   sm_key_len : (1 <= length fek)%nat;
   sm_em : es_encrypt_metadata st = ip_EncryptMetadata ip;
   (* V < 4: EncryptionState::decode clears the filters and leaves the names empty *)
-  sm_v3 : (ip_V ip <? 4)%Z = true -> es_crypt_filters st = [] /\ es_stmf st = [] /\ es_strf st = [];
+  sm_v3 : (ip_V ip <? 4)%Z = true -> es_crypt_filters st = [] /\ es_stmf st = [] /\ es_strf st = [] /\ es_eff st = None;
   (* V = 4, 5 *)
   sm_cf : (ip_V ip <? 4)%Z = false -> cf_agree (es_crypt_filters st) (ip_CF ip);
   sm_stmf : (ip_V ip <? 4)%Z = false -> es_stmf st = ip_StmF ip /\ defined ip (ip_StmF ip);
   sm_strf : (ip_V ip <? 4)%Z = false -> es_strf st = ip_StrF ip /\ defined ip (ip_StrF ip);
   (* Identity is predefined and "shall not" be redefined in CF *)
   sm_identity : cf_lookup (ip_CF ip) iN_Identity = None;
-  (* lopdf has no EFF: the embedded file streams use the stream filter *)
-  sm_eff : ip_EFF ip = None;
+  (* EFF: the crypt filter of the embedded file streams *)
+  sm_eff : (ip_V ip <? 4)%Z = false -> es_eff st = ip_EFF ip /\ (forall e, ip_EFF ip = Some e -> defined ip e);
   (* the key sizes of the methods in use *)
   sm_ok : forall n, method_ok (resolve ip n) fek;
 }.
@@ -61,51 +61,89 @@ Proof.
   - destruct (cf_lookup (ip_CF ip) n); reflexivity.
 Qed.
 
-Lemma no_crypt_names l : index_of_name iN_Crypt l = None ->
-  forall fs, omap (fun o => match o with OName n => Some n | _ => None end) l = Some fs ->
-  existsb (bytes_eqb N_Crypt) fs = false.
+(* Stream::filters on an array of names, and the position of Crypt in it *)
+Lemma names_position l : all_names l ->
+  exists fs, omap (fun o => match o with OName n => Some n | _ => None end) l = Some fs /\
+             position N_Crypt fs = index_of_name iN_Crypt l.
 Proof.
-  induction l as [|x l IH]; intros H fs Hfs.
-  - inversion Hfs. reflexivity.
-  - cbn [omap] in Hfs. destruct x; try discriminate.
-    destruct (omap _ l) as [r|] eqn:Er; [|discriminate]. inversion Hfs; subst fs.
-    cbn [index_of_name] in H. cbn [existsb].
-    change N_Crypt with iN_Crypt. rewrite bytes_eqb_sym.
-    destruct (bytes_eqb n iN_Crypt); [discriminate|]. cbn [orb].
-    apply (IH ltac:(destruct (index_of_name iN_Crypt l); [discriminate|reflexivity]) r eq_refl).
+  induction 1 as [|x l Hx _ [fs [E1 E2]]].
+  - exists []. split; reflexivity.
+  - destruct x; try contradiction. exists (n :: fs). cbn [omap]. rewrite E1. split; [reflexivity|].
+    cbn [position index_of_name]. rewrite E2. reflexivity.
+Qed.
+
+(* the crypt filter the decode parameters name (default Identity), as lopdf and as the standard look it up *)
+Lemma params_agree st ip fek (params : option obj) : state_matches st ip fek -> (ip_V ip <? 4)%Z = false ->
+  match params with
+  | Some (ODict dp) =>
+    match dict_get dp K_Name with
+    | Some (OName n) => match bt_get (es_crypt_filters st) n with Some f => f | None => CF_Identity end
+    | _ => CF_Identity
+    end
+  | _ => CF_Identity
+  end =
+  meth_cfm (resolve ip (match params with
+                        | Some (ODict p) => match dict_get p iK_Name with Some (OName n) => n | _ => iN_Identity end
+                        | _ => iN_Identity
+                        end)).
+Proof.
+  intros SM HV. change K_Name with iK_Name.
+  assert (Hid : CF_Identity = meth_cfm (resolve ip iN_Identity)) by reflexivity.
+  destruct params as [[| | | | | | | dp | |]|]; try exact Hid.
+  destruct (dict_get dp iK_Name) as [[| | | | n | | | | |]|]; try exact Hid.
+  apply (override_agree st ip fek n SM HV).
+Qed.
+
+Lemma embedded_type_eq sd : has_type sd N_EmbeddedFile = dict_type_is sd iN_EmbeddedFile.
+Proof. reflexivity. Qed.
+
+(* without a Crypt filter of its own: EFF for embedded file streams, else StmF *)
+Lemma default_agree st ip fek sd : state_matches st ip fek -> (ip_V ip <? 4)%Z = false ->
+  (if has_type sd N_EmbeddedFile then embedded_file_filter st else stream_filter st) =
+  meth_cfm (match ip_EFF ip with
+            | Some eff => if dict_type_is sd iN_EmbeddedFile then resolve ip eff else resolve ip (ip_StmF ip)
+            | None => resolve ip (ip_StmF ip)
+            end).
+Proof.
+  intros SM HV. destruct (sm_stmf _ _ _ SM HV) as [Estm Hdef]. destruct (sm_eff _ _ _ SM HV) as [Eeff Hdeff].
+  assert (Hdflt : stream_filter st = meth_cfm (resolve ip (ip_StmF ip))).
+  { unfold stream_filter. rewrite Estm. apply (resolve_agree st ip fek _ SM HV Hdef). }
+  rewrite embedded_type_eq. unfold embedded_file_filter. rewrite Eeff.
+  destruct (ip_EFF ip) as [eff|].
+  - destruct (dict_type_is sd iN_EmbeddedFile); [|exact Hdflt].
+    apply (resolve_agree st ip fek _ SM HV (Hdeff eff eq_refl)).
+  - destruct (dict_type_is sd iN_EmbeddedFile); exact Hdflt.
 Qed.
 
 Theorem stream_cf_agree st ip fek sd c : state_matches st ip fek -> stream_ok ip sd ->
   stream_cf st (OStream sd c) = meth_cfm (stream_method ip sd).
 Proof.
-  intros SM [Harr Hv3]. unfold stream_cf, stream_method. rewrite (sm_eff _ _ _ SM).
+  intros SM [Hflt Hv3]. unfold stream_cf, stream_method.
   destruct (ip_V ip <? 4)%Z eqn:HV.
   - (* V < 4: no crypt filters; everything is RC4 *)
-    specialize (Hv3 eq_refl). destruct (sm_v3 _ _ _ SM HV) as (Ecf & Estm & _).
+    specialize (Hv3 eq_refl). destruct (sm_v3 _ _ _ SM HV) as (Ecf & Estm & _ & Eeff).
     assert (Hov : override_filter st (OStream sd c) = None).
     { unfold override_filter, stream_filters. unfold crypt_filter_name in Hv3.
       change K_Filter with iK_Filter. destruct (dict_get sd iK_Filter) as [[| | | | f | | l | | |]|]; try reflexivity.
-      - cbn [existsb]. change N_Crypt with iN_Crypt. rewrite bytes_eqb_sym.
+      - cbn [position]. change N_Crypt with iN_Crypt.
         destruct (bytes_eqb f iN_Crypt); [discriminate|reflexivity].
-      - destruct (omap _ l) as [fs|] eqn:Efs; [|reflexivity].
-        rewrite (no_crypt_names l Harr fs Efs). reflexivity. }
-    rewrite Hov. unfold stream_filter, get_crypt_filter. rewrite Estm, Ecf. reflexivity.
-  - unfold override_filter, stream_filters, crypt_filter_name.
-    change K_Filter with iK_Filter. change K_DecodeParms with iK_DecodeParms. change K_Name with iK_Name.
-    destruct (sm_stmf _ _ _ SM HV) as [Estm Hdef].
-    assert (Hdflt : stream_filter st = meth_cfm (resolve ip (ip_StmF ip))).
-    { unfold stream_filter. rewrite Estm. apply (resolve_agree st ip fek _ SM HV Hdef). }
+      - destruct (names_position l Hflt) as [fs [E1 E2]]. rewrite E1, E2.
+        destruct (index_of_name iN_Crypt l); [discriminate|reflexivity]. }
+    rewrite Hov. unfold embedded_file_filter, stream_filter, get_crypt_filter. rewrite Eeff, Estm, Ecf.
+    destruct (has_type sd N_EmbeddedFile); reflexivity.
+  - pose proof (default_agree st ip fek sd SM HV) as Hdflt.
+    unfold override_filter, stream_filters, crypt_filter_name.
+    change K_Filter with iK_Filter. change K_DecodeParms with iK_DecodeParms.
     destruct (dict_get sd iK_Filter) as [[| | | | f | | l | | |]|]; try exact Hdflt.
-    + cbn [existsb]. change N_Crypt with iN_Crypt. rewrite bytes_eqb_sym.
-      destruct (bytes_eqb f iN_Crypt); [|exact Hdflt]. cbn [orb].
-      destruct (dict_get sd iK_DecodeParms) as [[| | | | | | | dp | |]|];
-        try (symmetry; apply (override_agree st ip fek iN_Identity SM HV) || reflexivity);
-        try (rewrite <- (override_agree st ip fek iN_Identity SM HV), (sm_cf _ _ _ SM HV), (sm_identity _ _ _ SM); reflexivity).
-      destruct (dict_get dp iK_Name) as [[| | | | n | | | | |]|];
-        try (rewrite <- (override_agree st ip fek iN_Identity SM HV), (sm_cf _ _ _ SM HV), (sm_identity _ _ _ SM); reflexivity).
-      apply (override_agree st ip fek n SM HV).
-    + rewrite Harr. destruct (omap _ l) as [fs|] eqn:Efs; [|exact Hdflt].
-      rewrite (no_crypt_names l Harr fs Efs). exact Hdflt.
+    + cbn [position]. change N_Crypt with iN_Crypt.
+      destruct (bytes_eqb f iN_Crypt) eqn:Ef; [|exact Hdflt]. specialize (Hflt eq_refl).
+      destruct (dict_get sd iK_DecodeParms) as [[| | | | | | ps | dp | |]|]; try contradiction; try reflexivity.
+      exact (params_agree st ip fek (Some (ODict dp)) SM HV).
+    + destruct (names_position l Hflt) as [fs [E1 E2]]. rewrite E1, E2.
+      destruct (index_of_name iN_Crypt l) as [k|]; [|exact Hdflt].
+      destruct (dict_get sd iK_DecodeParms) as [[| | | | | | ps | dp | |]|]; try reflexivity.
+      * exact (params_agree st ip fek (nth_error ps k) SM HV).
+      * exact (params_agree st ip fek (Some (ODict dp)) SM HV).
 Qed.
 
 Theorem string_filter_agree st ip fek : state_matches st ip fek ->
@@ -113,7 +151,7 @@ Theorem string_filter_agree st ip fek : state_matches st ip fek ->
 Proof.
   intro SM. unfold string_filter, string_method.
   destruct (ip_V ip <? 4)%Z eqn:HV.
-  - destruct (sm_v3 _ _ _ SM HV) as (Ecf & _ & Estr). unfold get_crypt_filter. rewrite Estr, Ecf. reflexivity.
+  - destruct (sm_v3 _ _ _ SM HV) as (Ecf & _ & Estr & _). unfold get_crypt_filter. rewrite Estr, Ecf. reflexivity.
   - destruct (sm_strf _ _ _ SM HV) as [Estr Hdef]. rewrite Estr. apply (resolve_agree st ip fek _ SM HV Hdef).
 Qed.
 
@@ -126,6 +164,7 @@ Proof.
   - exact (string_filter_agree st ip fek SM).
   - unfold string_method. destruct (ip_V ip <? 4)%Z; [exact Logic.I|apply (sm_ok _ _ _ SM)].
   - intros sd c Hok. exact (stream_cf_agree st ip fek sd c SM Hok).
-  - intro sd. unfold stream_method. rewrite (sm_eff _ _ _ SM).
-    destruct (ip_V ip <? 4)%Z; [exact Logic.I|]. destruct (crypt_filter_name sd); apply (sm_ok _ _ _ SM).
+  - intro sd. unfold stream_method.
+    destruct (ip_V ip <? 4)%Z; [exact Logic.I|]. destruct (crypt_filter_name sd); [apply (sm_ok _ _ _ SM)|].
+    destruct (ip_EFF ip); [destruct (dict_type_is sd iN_EmbeddedFile)|]; apply (sm_ok _ _ _ SM).
 Qed.
